@@ -144,11 +144,10 @@ void disasm_range_sweet16(
   char instruction[128];
   int cycles_min = 0,cycles_max = 0;
   int count;
-  uint16_t opcode;
 
   printf("\n");
 
-  printf("%-7s %-5s %-40s\n", "Addr", "Opcode", "Instruction");
+  printf("%-7s %-8s %-40s\n", "Addr", "Opcode", "Instruction");
   printf("------- ------ ----------------------------------       ------\n");
 
   while (start <= end)
@@ -162,9 +161,19 @@ void disasm_range_sweet16(
       &cycles_min,
       &cycles_max);
 
-    opcode = memory->read16(start);
+    char temp[32];
+    int n;
 
-    printf("0x%04x: 0x%04x %-40s", start / 2, opcode, instruction);
+    snprintf(temp, sizeof(temp), "%02x", memory->read8(start));
+
+    for (n = 1; n < count; n++)
+    {
+      char temp2[4];
+      snprintf(temp2, sizeof(temp2), " %02x", memory->read8(start + n));
+      strcat(temp, temp2);
+    }
+
+    printf("0x%04x: %-8s %-40s\n", start, temp, instruction);
 
     start = start + count;
   }
